@@ -33,7 +33,7 @@ ASSUMPTIONS = ["same computation twice is compared bitwise (gradient at each ste
                "the step-local gradient check covers them"]
 PROBES = ["epochs_0", "epochs_ge2", "n_times_ge2", "validation_off", "optimizer_instance", "optimizer_class", "lazy_model", "dropout_model",
           "prev_hedge", "H2", "init_state", "ambient_no_grad", "entered_in_eval_mode", "second_fit_same_hedger", "param_equal_reference",
-          "step_local_grad"]
+          "step_local_grad", "stale_grad_at_entry"]
 
 
 class EventLog(list):
@@ -115,6 +115,9 @@ def generate(rng):
             ops.append({"fault": "mode", "mode": rng.choice(["eval", "train"])})
         if rng.chance(0.2):
             ops.append({"op": "pre_hedge", "n_paths": rng.choice([1, 3]), "torch_seed": rng.seed31()})
+        if rng.chance(0.3):
+            # the user inspected gradients before training: parameters carry a stale .grad when fit() starts
+            ops.append({"fault": "stale_grad", "n_paths": rng.choice([2, 3]), "torch_seed": rng.seed31()})
         init = None
         if rng.chance(0.3):
             init = {"BrownianStock": [1.1], "HestonStock": [1.1, 0.05], "RoughBergomiStock": [1.1, 0.05]}.get(pkind, [1.1])
@@ -165,6 +168,18 @@ def _execute(program, stats, hist):
     nfit = 0
     for op in program["ops"]:
         seq = hist.seq
+        if op.get("fault") == "stale_grad":
+            torch.manual_seed(op["torch_seed"])
+            try:
+                hd = world.hedge_list(program["ops"][-1].get("hedge"))
+                with torch.enable_grad():
+                    h.compute_loss(d, hedge=hd, n_paths=op["n_paths"]).backward()
+            except Exception as e:
+                raise Inconclusive("stale_grad raised %r" % (e,))
+            stats.fault("stale_gradients_before_fit")
+            stats.probe("stale_grad_at_entry")
+            hist.add(fault="stale_grad")
+            continue
         if "fault" in op:
             (h.eval if op["mode"] == "eval" else h.train)()
             stats.fault("F6_mode_flip")
